@@ -1440,3 +1440,44 @@ def check_error_swallow(ctx, P, rule, scope, key_prefix='ERR', workspace=None):
     if bad == 0:
         ctx.ok(rule, 'none', 'no Result of a repository function is turned into a default in %s' % ', '.join(sorted(scope)))
     return n
+
+
+# ------------------------------------------------------------------ sibling constructors ----
+def ctor_fields(P, q, adt):
+    """{field: description of the value} for the struct literal of `adt` that function q returns"""
+    B = P.B(q)
+    if B is None:
+        return None
+    out = None
+    for bb, j, st in B.stmts():
+        if st['k'] == '=' and st['rv']['k'] == 'agg' and st['rv'].get('adt') == adt and st['rv'].get('fn'):
+            if st['pl']['l'] == 0 or 0 in B.derived_locals([st['pl']['l']]):
+                out = {n: describe(B, canon(B, o)) for n, o in zip(st['rv']['fn'], st['rv']['ops'])}
+    return out
+
+
+def check_sibling_ctors(ctx, P, rule, adt, ctors, allowed):
+    """Constructors of one type are copies of each other that are meant to differ in one thing: every other field must be
+    initialised alike (a second constructor that forgets, or re-derives, a field drifts from the first)."""
+    base = ctor_fields(P, ctors[0], adt)
+    short = adt.rsplit('::', 1)[-1]
+    if base is None:
+        ctx.undecided(rule, short, 'struct literal of %s not found in %s' % (short, ctors[0]))
+        return 0
+    n = 0
+    for q in ctors[1:]:
+        other = ctor_fields(P, q, adt)
+        inst = '%s:%s~%s' % (short, ctors[0].rsplit('::', 1)[-1], q.rsplit('::', 1)[-1])
+        if other is None:
+            # delegates to another constructor: nothing to compare
+            ctx.ok(rule, inst, '%s builds no literal of its own (delegates)' % q.rsplit('::', 1)[-1])
+            continue
+        n += 1
+        diff = sorted(k for k in set(base) | set(other) if base.get(k) != other.get(k))
+        extra = [k for k in diff if k not in allowed]
+        if extra:
+            ctx.bad(rule, inst, 'the two constructors also differ in %s (%s vs %s); they are meant to differ only in %s' % (
+                extra, {k: base.get(k) for k in extra}, {k: other.get(k) for k in extra}, sorted(allowed)), ctx.where(P.B(q)), key='TWIN:%s:ctor-fields:%s' % (q, '+'.join(extra)))
+        else:
+            ctx.ok(rule, inst, 'differ only in %s' % (diff or 'nothing'), ctx.where(P.B(q)))
+    return n
